@@ -22,8 +22,10 @@ Print Assumptions gen_find_max_part_is_model.
 (* the regenerated part-file name of row group i = FsPaths.part_name (i + offset) *)
 Theorem gen_part_name_is_model : forall i off, gen_part_name i off = part_name (i + off).
 Proof.
-  intros i off. unfold gen_part_name, py_fmt_i, part_name, s_part, s_parquet, dot.
-  cbn [app]. repeat f_equal; lia.
+  intros i off. unfold gen_part_name.
+  (* the number may be written i + i_offset, i_offset + i, ... : normalise it, then the texts must agree literally *)
+  match goal with |- py_fmt_i ?p ?s ?n = _ => replace n with (i + off) by lia end.
+  reflexivity.
 Qed.
 Print Assumptions gen_part_name_is_model.
 
